@@ -290,6 +290,12 @@ func (p *parser) resolveModuleImport(importStmt *ast.ImportStmt) {
 		resolveSingleModule(inclPath)
 	} else {
 		filepath.WalkDir(inclPath, func(path string, d fs.DirEntry, err error) error {
+			// a directory that does not exist or cannot be read
+			if err != nil {
+				p.err(ddperror.MISC_INCLUDE_ERROR, importStmt.FileName.Range, fmt.Sprintf("Fehler beim Einbinden des Verzeichnisses '%s': %s", rawPath, err.Error()))
+				return filepath.SkipDir
+			}
+
 			if path == inclPath {
 				return nil
 			}
@@ -304,6 +310,11 @@ func (p *parser) resolveModuleImport(importStmt *ast.ImportStmt) {
 
 			return nil
 		})
+
+		// the following stages rely on at least one imported module
+		if len(importStmt.Modules) == 0 {
+			p.err(ddperror.MISC_INCLUDE_ERROR, importStmt.FileName.Range, fmt.Sprintf("Im Verzeichnis '%s' wurden keine Module gefunden", rawPath))
+		}
 	}
 
 	ast.IterateImportedDecls(importStmt, func(_ string, decl ast.Declaration, tok token.Token) bool {
